@@ -792,3 +792,50 @@ package actions
 //@ func actionTimer.onSuccess()
 //@   abstract
 //@   modifies nothing
+
+// ---- C19 (HTTP push), the sequential parts. Outcomes of pushes travel over three queues; Receive turns what it
+// takes from a queue into a stream request of the matching kind (ack queues -> acks, nack queue -> nacks, never
+// mixed) and keeps the adaptive window within 1..1000; the goroutine started by Send puts the delivery id on an ack
+// queue only after a success status (102, 200, 201, 202, 204) and on the nack queue after any other status or a
+// transport error.
+//@ func drainIds(dest, src)
+//@   property C19
+//@   uses chanspec
+//@   requires dest != nil
+//@   ensures appended_only: len(deref(dest)) >= old(len(deref(dest))) && (forall i int :: {deref(dest)[i]} 0 <= i && i < old(len(deref(dest))) ==> deref(dest)[i] == old(deref(dest)[i]))
+//@   ensures from_that_queue: forall i int :: {deref(dest)[i]} old(len(deref(dest))) <= i && i < len(deref(dest)) ==> chan_recvd(src, deref(dest)[i])
+//@   ensures history_grows: forall q chan uuid.UUID, v uuid.UUID :: old(chan_recvd(q, v)) ==> chan_recvd(q, v)
+//@   ensures other_slices_kept: forall p *[]uuid.UUID :: {len(deref(p))} {deref(p).base} {deref(p).cap} p != dest ==> deref(p).base == old(deref(p).base) && len(deref(p)) == old(len(deref(p))) && deref(p).cap == old(deref(p).cap)
+//@   modifies S:chan_recvd, B:[]uuid.UUID:*
+//@   allocates E:uuid.UUID:
+//@   loop 1
+//@     invariant forall p *[]uuid.UUID :: {len(deref(p))} {deref(p).base} {deref(p).cap} p != dest ==> deref(p).base == old(deref(p).base) && len(deref(p)) == old(len(deref(p))) && deref(p).cap == old(deref(p).cap)
+//@     invariant fresh_only("E:uuid.UUID:")
+//@     invariant dest != nil && len(deref(dest)) >= old(len(deref(dest))) && (forall i int :: {deref(dest)[i]} 0 <= i && i < old(len(deref(dest))) ==> deref(dest)[i] == old(deref(dest)[i]))
+//@     invariant forall i int :: {deref(dest)[i]} old(len(deref(dest))) <= i && i < len(deref(dest)) ==> chan_recvd(src, deref(dest)[i])
+//@     invariant forall q chan uuid.UUID, v uuid.UUID :: old(chan_recvd(q, v)) ==> chan_recvd(q, v)
+
+//@ func (*httpPushStreamConn).Receive(c, ctx) (ret, err)
+//@   property C19
+//@   uses chanspec
+//@   requires c != nil
+//@   requires window: 1 <= c.maxMessages && c.maxMessages <= 1000
+//@   ensures window_kept: 1 <= c.maxMessages && c.maxMessages <= 1000
+//@   ensures answered: (err == nil) == (ret != nil)
+//@   ensures acks_from_ack_queues: err == nil ==> (forall i int :: {ret.Ack[i]} 0 <= i && i < len(ret.Ack) ==> chan_recvd(c.fastAckQueue, ret.Ack[i]) || chan_recvd(c.slowAckQueue, ret.Ack[i]))
+//@   ensures nacks_from_nack_queue: err == nil ==> (forall i int :: {ret.Nack[i]} 0 <= i && i < len(ret.Nack) ==> chan_recvd(c.nackQueue, ret.Nack[i]))
+//@   ensures nothing_dropped: err == nil ==> len(ret.Ack) + len(ret.Nack) >= 1 && len(ret.Delay) == 0
+//@   ensures window_announced: err == nil && c.maxMessages != old(c.maxMessages) ==> ret.FlowControl != nil && ret.FlowControl.MaxMessages == c.maxMessages
+//@   modifies S:chan_recvd, F:actions.httpPushStreamConn:maxMessages, F:actions.httpPushStreamConn:mu*
+//@   allocates E:uuid.UUID:, F:actions.MessageStreamRequest:*, F:actions.FlowControl:*, B:*
+
+// the goroutine that carries out one push and reports its outcome on one of the three queues
+//@ func (*httpPushStreamConn).Send$1()
+//@   property C19
+//@   uses chanspec
+//@   requires c != nil && del != nil && c.client != nil
+//@   requires queues_distinct: c.fastAckQueue != c.slowAckQueue && c.fastAckQueue != c.nackQueue && c.slowAckQueue != c.nackQueue
+//@   ensures only_this_delivery: forall q chan uuid.UUID, v uuid.UUID :: chan_sent(q, v) && !old(chan_sent(q, v)) ==> v == del.ID && (q == c.fastAckQueue || q == c.slowAckQueue || q == c.nackQueue)
+//@   ensures ack_only_after_success: (chan_sent(c.fastAckQueue, del.ID) && !old(chan_sent(c.fastAckQueue, del.ID))) || (chan_sent(c.slowAckQueue, del.ID) && !old(chan_sent(c.slowAckQueue, del.ID))) ==> push_acknowledged()
+//@   ensures nack_after_anything_else: chan_sent(c.nackQueue, del.ID) && !old(chan_sent(c.nackQueue, del.ID)) ==> !push_acknowledged()
+//@   modifies *
